@@ -91,6 +91,7 @@ type Ctx struct {
 	allGhosts   map[string]bool
 	usesBSeq    bool
 	usesObjKey  bool
+	skippedAbs  map[int]int // loop ordinal -> obligations not generated because the loop is declared abstract
 	defs        map[string]string
 	paramTerms  []Value
 	smtCache    []string
@@ -105,7 +106,7 @@ func newCtx(P *Program, SS *SpecSet, fn *ssa.Function, spec *FuncSpec, key strin
 	return &Ctx{P: P, SS: SS, Fn: fn, Spec: spec, Key: key,
 		sortSeen: map[string]bool{}, declSeen: map[string]bool{}, oblCount: map[string]int{},
 		Assumptions: map[string]bool{}, Unmodelled: map[string]bool{}, tags: map[string]int{}, strlits: map[string]string{},
-		structNames: map[string]string{}, maxPaths: 4000, usedAxioms: map[string]bool{}, warned: map[string]bool{}, rangeCells: map[*ssa.Range]*Cell{}, compSorts: map[string]string{}, defs: map[string]string{}, constGlobals: map[string]bool{}}
+		structNames: map[string]string{}, maxPaths: 4000, usedAxioms: map[string]bool{}, warned: map[string]bool{}, rangeCells: map[*ssa.Range]*Cell{}, compSorts: map[string]string{}, defs: map[string]string{}, constGlobals: map[string]bool{}, skippedAbs: map[int]int{}}
 }
 
 func (c *Ctx) fresh(prefix string) string {
